@@ -1091,7 +1091,7 @@ class TypeBlocks(ContainerOperand):
                         # negative positions count from the end: normalize so that sorting ascends by position
                         size = self._shape[1]
                         indices = (self._index[x] for x in sorted(
-                                x + size if x < 0 else x for x in key))
+                                x + size if -size <= x < 0 else x for x in key))
                 elif key is None: # get all
                     indices = self._index
                 else:
